@@ -8,7 +8,7 @@ fq_s, sel, part = sys.argv[1], sys.argv[2], int(sys.argv[3])
 tmo = int(sys.argv[4]) if len(sys.argv) > 4 else 5000
 specs = load_specs(); w = make_world(specs)
 fq = [k for k in specs.contracts if k.endswith(fq_s)][0]
-def fake(obs, ax, timeout_ms, seed, jobs):
+def fake(obs, ax, timeout_ms, seed, jobs, single_attempt=()):
     for ob in obs:
         if sel in ob.oid:
             parts = split_goal(ob.goal)
